@@ -259,6 +259,19 @@ def r194(ctx, R):
         ida = C.arg_for_param(calls[0], callee, callee.params[1]) if len(
             calls) == 1 and len(callee.params) > 1 else None
         okid = ida is not None and src(ida) == 'self.id'
+        if not okid and len(calls) == 1 and isinstance(
+                calls[0].func, ast.Attribute) and src(
+                    calls[0].func.value) == 'self' and callee.params[:1] \
+                == ['self'] and len(callee.params) == 2 and not any(
+                    d.qname == 'staticmethod' for d in callee.decorators):
+            # an instance method applied to the object itself, handed
+            # nothing but the context: the id it filters by is self.id
+            ids = {src(C.inline_locals(callee, n.comparators[0]))
+                   for n in own_nodes(callee.node)
+                   if isinstance(n, ast.Compare) and len(n.ops) == 1
+                   and isinstance(n.ops[0], ast.Eq)
+                   and src(n.left).endswith('.id')}
+            okid = ids == {'self.id'}
         R.ob('R19.4', 'ResourceClass.%s:acts-on-own-id' % meth, okid,
              'the row written is the object\'s own id',
              [src(c) for c in calls], func=f, nontrivial=False)
